@@ -188,12 +188,16 @@ def solve_scipy(
     # first time in a process, so the note (and with it Solution.message) depended
     # on which solves had run before: always deliver it while this solve runs.
     warning_filters = warnings.catch_warnings()
-    warning_filters.__enter__()
-    warnings.filterwarnings(
-        "always", message=r"delta_grad == 0\.0", category=UserWarning
-    )
+    filters_entered = False
 
     try:
+        # (entered inside the try block, so that an interrupt arriving right here is
+        # undone by the finally clause as well)
+        warning_filters.__enter__()
+        filters_entered = True
+        warnings.filterwarnings(
+            "always", message=r"delta_grad == 0\.0", category=UserWarning
+        )
         # Temporarily override warning handling during solve
         warnings.showwarning = warning_handler
 
@@ -218,7 +222,8 @@ def solve_scipy(
         )
     finally:
         warnings.showwarning = old_showwarning
-        warning_filters.__exit__(None, None, None)
+        if filters_entered:
+            warning_filters.__exit__(None, None, None)
 
     solve_time = time.perf_counter() - start_time
 
